@@ -113,6 +113,11 @@ def make_pool(r):
     P.add("FixedArray(empty caption)", FixedArray(3, ObtainQuantity("cm", "depth", ""), [1.0, 2.0, 4.0]))
     P.add("Scalar(unknown, empty caption)", Scalar(GetUnknownQuantity(""), 1.5))
     P.add("Scalar(m/s, caption)", Scalar(ObtainQuantity(OrderedDict([("length", ["m", 1]), ("time", ["s", -1])]), None, "a caption"), 2.0))
+    # amounts that are exactly zero in a unit whose zero is not the zero of the category's default unit
+    P.add("Scalar(0.0 degC)", Scalar(0.0, "degC"))
+    P.add("Scalar(int 0 degF)", Scalar("temperature", 0, "degF"))
+    P.add("Scalar(-0.0 psig)", Scalar(-0.0, "psig"))
+    P.add("FixedArray(zeros degC)", FixedArray(3, "temperature", [0.0, 0.0, 0.0], "degC"))
     P.add("FractionValue", FractionValue(1, (1, 2)))
     P.add("Fraction", Fraction(3, 4))
     return P
@@ -239,6 +244,29 @@ def one_history(ctx, gid, n_steps, mon):
                     ctx.violation("operand-changed-by:%s" % qual, dict(case, before=repr(before)[:300], after=repr(after)[:300]), replay=case)
                 for lbl, before, after in P.check():
                     ctx.violation("pool-member-changed:%s:after:%s" % (lbl.split("#")[0], how), dict(case, member=lbl, before=repr(before)[:300], after=repr(after)[:300]), replay=case)
+        # the augmented spellings (x *= 2 ...): a name is re-bound, the object it named before - still referred to by the pool,
+        # by copies, by the caller's container - is what it was
+        for label, a, _s in list(P.members):
+            if not monitors_is_value(a) or gid % 24:
+                continue
+            for sym, fn in (("+=", operator.iadd), ("-=", operator.isub), ("*=", operator.imul), ("/=", operator.itruediv), ("//=", operator.ifloordiv), ("**=", operator.ipow)):
+                for kname, kk in (("int", 2), ("float", 0.5), ("np.float64", np.float64(4.0)), ("itself", a)):
+                    if sym == "**=" and kname != "int":
+                        continue
+                    case = dict(base_case, step=-1, op=[sym, type(a).__name__, kname], label=label)
+                    ctx.ev()
+                    try:
+                        t = a
+                        t = fn(t, kk)
+                        ok = "ok"
+                    except Exception:
+                        ok = "exc"
+                    ctx.count("augmented operators %s" % ok)
+                    ctx.nt(("augmented", sym, type(a).__name__, kname, ok))
+                    for qual, before, after in mon.drain():
+                        ctx.violation("operand-changed-by:%s" % qual, dict(case, before=repr(before)[:300], after=repr(after)[:300]), replay=case)
+                    for lbl, before, after in P.check():
+                        ctx.violation("pool-member-changed:%s:after:%s" % (lbl.split("#")[0], sym), dict(case, member=lbl, before=repr(before)[:300], after=repr(after)[:300]), replay=case)
     for step in range(n_steps):
         objs = P.objects()
         a = r.choice(objs)
